@@ -154,11 +154,13 @@ package gocql
 //@ func (f *framer) parseReadyFrame
 //@   props C04 C05
 //@   requires f.header != nil
+//@   ensures typeis(result, *readyFrame) && unbox(result, *readyFrame) != nil
 
 //@ func (f *framer) parseSupportedFrame
 //@   props C04 C05
 //@   requires f.header != nil
 //@   may_soft_panic
+//@   ensures !soft_panic() ==> typeis(result, *supportedFrame) && unbox(result, *supportedFrame) != nil
 
 //@ func (f *framer) readTypeInfo
 //@   props C04 C05
@@ -194,57 +196,76 @@ package gocql
 //@ func (f *framer) parseResultRows
 //@   props C04 C05
 //@   may_soft_panic
+//@   ensures !soft_panic() ==> typeis(result, *resultRowsFrame) && unbox(result, *resultRowsFrame) != nil
 
 //@ func (f *framer) parseResultSetKeyspace
 //@   props C04 C05
 //@   requires f.header != nil
 //@   may_soft_panic
+//@   ensures !soft_panic() ==> typeis(result, *resultKeyspaceFrame) && unbox(result, *resultKeyspaceFrame) != nil
 
 //@ func (f *framer) parseResultPrepared
 //@   props C04 C05
 //@   requires f.header != nil
 //@   may_soft_panic
+//@   ensures !soft_panic() ==> typeis(result, *resultPreparedFrame) && unbox(result, *resultPreparedFrame) != nil
 
 //@ func (f *framer) parseResultSchemaChange
 //@   props C04 C05
 //@   requires f.header != nil
 //@   may_soft_panic
+//@   ensures !soft_panic() ==> result != nil && nonnilptr(result)
 
 //@ func (f *framer) parseResultFrame
 //@   props C04 C05
 //@   requires f.header != nil
 //@   may_soft_panic
+//@   ensures !soft_panic() && result1 == nil ==> result0 != nil
+//@   ensures !soft_panic() ==> nonnilptr(result0)
 
 //@ func (f *framer) parseErrorFrame
 //@   props C04 C05
 //@   requires f.header != nil
 //@   may_soft_panic
+//@   ensures !soft_panic() ==> result != nil && nonnilptr(result)
 
 //@ func (f *framer) parseAuthenticateFrame
 //@   props C04 C05
 //@   requires f.header != nil
 //@   may_soft_panic
+//@   ensures !soft_panic() ==> typeis(result, *authenticateFrame) && unbox(result, *authenticateFrame) != nil
 
 //@ func (f *framer) parseAuthSuccessFrame
 //@   props C04 C05
 //@   requires f.header != nil
 //@   may_soft_panic
+//@   ensures !soft_panic() ==> typeis(result, *authSuccessFrame) && unbox(result, *authSuccessFrame) != nil
 
 //@ func (f *framer) parseAuthChallengeFrame
 //@   props C04 C05
 //@   requires f.header != nil
 //@   may_soft_panic
+//@   ensures !soft_panic() ==> typeis(result, *authChallengeFrame) && unbox(result, *authChallengeFrame) != nil
 
 //@ func (f *framer) parseEventFrame
 //@   props C04 C05
 //@   requires f.header != nil
 //@   may_soft_panic
+//@   ensures !soft_panic() ==> result != nil && nonnilptr(result)
 
 // parseFrame is the containment point: soft panics become the returned error,
 // run-time panics would be re-panicked (so none may be reachable below it).
 //@ func (f *framer) parseFrame
 //@   props C04 C05
 //@   requires f.header != nil
+// the kind of frame returned follows the opcode (CQL spec §2.4), and pointer frames are never nil pointers
+//@   ensures err == nil ==> frame != nil
+//@   ensures nonnilptr(frame)
+//@   ensures err == nil && old(f.header.op) == opReady ==> typeis(frame, *readyFrame)
+//@   ensures err == nil && old(f.header.op) == opSupported ==> typeis(frame, *supportedFrame)
+//@   ensures err == nil && old(f.header.op) == opAuthenticate ==> typeis(frame, *authenticateFrame)
+//@   ensures err == nil && old(f.header.op) == opAuthChallenge ==> typeis(frame, *authChallengeFrame)
+//@   ensures err == nil && old(f.header.op) == opAuthSuccess ==> typeis(frame, *authSuccessFrame)
 
 // ---------------------------------------------------------------------------
 // metadata.go / helpers.go: type definitions from the schema tables (any string)
@@ -493,6 +514,60 @@ package gocql
 //@   props C04 C05 C15
 //@   boundary
 //@   requires is.iter != nil
+
+// ---------------------------------------------------------------------------
+// conn.go / control.go / events.go: driver goroutines (C05: a well-formed but
+// unexpected frame, or any parse result, must not crash them). Object invariants
+// of Conn/Session (configuration objects set by the constructors) are `requires`.
+// ---------------------------------------------------------------------------
+
+// exec is verified under C01/C06/C07; callers here need only: a returned framer carries the header read by recv.
+//@ func (c *Conn) exec
+//@   props C05
+//@   trusted contract used by the startup / heartbeat callers (proved separately: C01/C06)
+//@   modifies nothing
+//@   ensures result1 == nil ==> result0 != nil && result0.header != nil
+
+//@ func (s *startupCoordinator) write
+//@   props C05 C20
+//@   requires s.conn != nil && ctx != nil
+//@   ensures nonnilptr(result0)
+
+//@ func (s *startupCoordinator) options
+//@   props C05
+//@   requires s.conn != nil && ctx != nil && s.conn.cfg != nil
+
+//@ func (s *startupCoordinator) startup
+//@   props C05 C18 C20
+//@   requires s.conn != nil && ctx != nil && s.conn.cfg != nil
+
+//@ func (s *startupCoordinator) authenticateHandshake
+//@   props C05 C20
+//@   requires s.conn != nil && ctx != nil && authFrame != nil
+
+//@ func (c *Conn) heartBeat
+//@   props C05
+//@   requires ctx != nil
+
+// controlConn.conn (atomic.Value) only ever holds *connHost values with a connection (setupConn)
+//@ func (c *controlConn) getConn
+//@   props C05
+//@   trusted atomic.Value holds only *connHost with conn != nil (stored by setupConn)
+//@   modifies nothing
+//@   ensures result == nil || result.conn != nil
+
+//@ func (c *controlConn) writeFrame
+//@   props C05
+//@   ensures nonnilptr(result0)
+
+//@ func (c *controlConn) heartBeat
+//@   props C05
+//@   requires c.session != nil && c.session.logger != nil
+
+//@ func (s *Session) handleEvent
+//@   props C05 C16
+//@   requires framer != nil && framer.header != nil && s.logger != nil && s.schemaEvents != nil && s.nodeEvents != nil
+//@   requires s.schemaEvents.logger != nil && s.nodeEvents.logger != nil
 
 // ---------------------------------------------------------------------------
 // uuid.go (RFC 4122; oracle in /verif/spec/bv.smt2 blocks uuid, hex)
